@@ -66,6 +66,14 @@ def gen(seed, tier):
         out.append(f"{op}@f32 a4:3,5000,2,-5000 a4:1,5001,2,5001")
         out.append(f"{op}@i16 a3:300,300,7 a3:300,-300,3")
         out.append(f"{op}@i8 a3:12,12,5 a3:12,-12,5")
+    for ty, big in (("i8", 100), ("i16", 20000)):
+        out.append(f"dot@{ty} a1:2 a3:{big},3,-{big}")
+        out.append(f"dot@{ty} a3:{big},3,-{big} a1:2")
+        out.append(f"dot@{ty} a1x1:3 a2x2:{big},1,-{big},2")
+        out.append(f"outer@{ty} a2:2,3 a2:{big},-{big}")
+        out.append(f"matmul@{ty} a2x2:{big},{big},1,0 a2x2:1,0,1,1")
+        out.append(f"vdot@{ty} a2:{big},{big} a2:1,1")
+        out.append(f"inner@{ty} a2:{big},{big} a2:1,1")
     out.append("matmul@f32 a2x2:4097,-4096,1,0 a2x2:4097,0,4098,1")
     out.append("matmul@i16 a2x2:300,300,1,0 a2x2:300,0,-300,1")
     out.append("inner@f32 a1x3:16777216,1,-16777216 a2x3:1,1,1,0,1,0")
@@ -146,6 +154,15 @@ def agree(case, impl, model):
         if not model.startswith("list("):
             return vlib.canon(impl) == vlib.canon(model)
         return _sym_judge(case, impl, model)
+    # 8- and 16-bit element types: an entry beyond the type's range is the exact sum converted to the type (saturated),
+    # never a wrapped value or a panic (seeded change C14n: dot with a one-element operand multiplied in the type)
+    ty = case.split(" ")[0].partition("@")[2]
+    if ty in ("i8", "i16") and model.startswith("arr("):
+        lo, hi = (-128, 127) if ty == "i8" else (-32768, 32767)
+        pi, pm = vlib.parse_arr(impl), vlib.parse_arr(model)
+        if pi is None or pm is None or pi[0] != pm[0] or len(pi[1]) != len(pm[1]):
+            return False
+        return all(int(a) == max(lo, min(hi, int(b))) for a, b in zip(pi[1], pm[1]))
     # values, not bit patterns: -0.0 (a product such as 0 * -3) equals 0
     nz = impl.replace("f8000000000000000", "0").replace("f80000000", "0")
     return vlib.canon(nz) == vlib.canon(model)
